@@ -15,6 +15,6 @@ if [ -f $SD/demo.py ]; then
 fi
 for c in "$@"; do
   out=/tmp/mw/seed_$(basename $SD)_$c.txt
-  (cd /verif && EON_REPO=$W timeout 1500 ./check $c --tier ${TIER:-quick} > $out 2>&1); rc=$?
+  (cd ${VERIF:-/verif} && EON_REPO=$W timeout 1500 ./check $c --tier ${TIER:-quick} > $out 2>&1); rc=$?
   echo "check $c: exit=$rc violations=$(grep -c '^VIOLATION' $out) nofail=$(grep -c 'no-failing-input-found' $out) :: $(grep 'what:' $out | head -2 | cut -c1-220 | tr '\n' '|')"
 done
